@@ -1602,6 +1602,16 @@ Error X86RAPass::emit_save(RAWorkReg* work_reg, uint32_t src_phys_id) noexcept {
   }
 #endif
 
+  // In 32-bit mode only AL|CL|DL|BL are byte-addressable. An 8-bit virtual register that currently lives in ESI|EDI|EBP
+  // (it was moved there as a 32-bit register) cannot be stored with `mov [mem], r8` - go through EAX in that case.
+  if (!cc().is_64bit() && src_reg.is_gp8() && src_phys_id >= 4u) {
+    Gp tmp = x86::eax;
+    Gp src = x86::gpd(src_phys_id);
+    ASMJIT_PROPAGATE(cc().xchg(tmp, src));
+    ASMJIT_PROPAGATE(_emit_helper.emit_reg_move(dst_mem, Reg(work_reg->signature(), Gp::kIdAx), work_reg->type_id(), comment));
+    return cc().xchg(tmp, src);
+  }
+
   return _emit_helper.emit_reg_move(dst_mem, src_reg, work_reg->type_id(), comment);
 }
 
